@@ -759,6 +759,10 @@ def roi_from_points(
     valid region.
     """
     shape = shape_(shape)
+    # python ints: numpy integer scalars overflow (or wrap around) next to far away points
+    padding = int(padding)
+    if align is not None:
+        align = int(align)
 
     def to_roi(*args):
         return tuple(slice(int(v[0]), int(v[1])) for v in args)
